@@ -4,10 +4,12 @@ import (
 	"context"
 	"encoding/json"
 	"fmt"
+	"github.com/ThreeDotsLabs/watermill"
 	"os"
 	"sort"
 	"strings"
 	"sync"
+	"sync/atomic"
 	"time"
 
 	"github.com/ThreeDotsLabs/watermill/message"
@@ -34,6 +36,26 @@ type c10Prog struct {
 	Ops   []string
 }
 
+// c10ParkLogger is silent; when armed it holds the goroutine that logs "Running router handlers" (RunHandlers, just inside its lock).
+type c10ParkLogger struct {
+	armed   int32
+	parked  chan struct{}
+	release chan struct{}
+	once    sync.Once
+}
+
+func (l *c10ParkLogger) unpark()                                  { l.once.Do(func() { close(l.release) }) }
+func (l *c10ParkLogger) Error(string, error, watermill.LogFields) {}
+func (l *c10ParkLogger) Info(msg string, _ watermill.LogFields) {
+	if msg == "Running router handlers" && atomic.CompareAndSwapInt32(&l.armed, 1, 0) {
+		l.parked <- struct{}{}
+		<-waitOr(l.release, HangBound)
+	}
+}
+func (l *c10ParkLogger) Debug(string, watermill.LogFields)                {}
+func (l *c10ParkLogger) Trace(string, watermill.LogFields)                {}
+func (l *c10ParkLogger) With(watermill.LogFields) watermill.LoggerAdapter { return l }
+
 func c10Programs(c *Ctx) []c10Prog {
 	ps := []c10Prog{
 		{"basic", strings.Fields("add:a:p1 add:b:p2 run waitrunning started:a started:b probe:a probe:b stop:a waitstopped:a probe:b probe:a cancel")},
@@ -49,6 +71,12 @@ func c10Programs(c *Ctx) []c10Prog {
 		{"second-run", strings.Fields("add:a:p1 run waitrunning probe:a cancel waitrun run2")},
 		{"second-run", strings.Fields("add:a:p1 run waitrunning close waitrun run2")},
 		{"second-run", strings.Fields("add:a:p1 add:b:p2 run waitrunning started:a started:b stop:a stop:b waitstopped:a waitstopped:b waitrun run2")},
+		// RunHandlers is inside its critical section when Close is called (the two take their locks in a fixed order: both return)
+		{"close-during-runhandlers", strings.Fields("add:a:p1 run waitrunning started:a add:b:p2 rhparked closebg unpark")},
+		{"close-during-runhandlers", strings.Fields("add:a:p1 add:b:p2 run waitrunning started:a started:b rhparked closebg unpark")},
+		// Stop() on a handler that has ended already, RunHandlers while a handler is ending: no panic, nothing starts twice
+		{"stop-twice", strings.Fields("add:a:p1 add:b:p2 run waitrunning started:a started:b stop:a waitstopped:a stop:a probe:b cancel")},
+		{"stop-twice", strings.Fields("add:a:p1 add:b:p2 run waitrunning started:a started:b stop:a rhx6 waitstopped:a rh stop:a probe:b cancel")},
 		{"second-run-during-startup", strings.Fields("add:a:p1 add:b:p2 holdsub:a run run2 release waitrunning probe:a probe:b cancel")},
 		{"publish-right-after-running", strings.Fields("add:a:p1 add:b:p2 add:c:p3 run waitrunning probe:c probe:b probe:a cancel")},
 		{"rh-before-run", strings.Fields("add:a:p1 rh run waitrunning probe:a cancel")},
@@ -174,7 +202,9 @@ func c10Run(r *tr.Run, p c10Prog) {
 			closeTimeout = 150 * time.Millisecond
 		}
 	}
-	router, _ := message.NewRouter(message.RouterConfig{CloseTimeout: closeTimeout}, nil)
+	// a logger that can hold RunHandlers right after it has taken its lock (at its first log line), see "rhparked"
+	plog := &c10ParkLogger{parked: make(chan struct{}, 4), release: make(chan struct{})}
+	router, _ := message.NewRouter(message.RouterConfig{CloseTimeout: closeTimeout}, plog)
 	subs := map[string]*scripted.Sub{}
 	handles := map[string]*message.Handler{}
 	handled := map[string]chan string{}
@@ -201,7 +231,7 @@ func c10Run(r *tr.Run, p c10Prog) {
 	quiesced := false
 	nruns := 0
 	seq := 0
-	var bg sync.WaitGroup
+	var bg, bg2 sync.WaitGroup
 	for _, op := range p.Ops {
 		f := strings.Split(op, ":")
 		switch {
@@ -410,6 +440,50 @@ func c10Run(r *tr.Run, p c10Prog) {
 				r.Emit("hung", "what", "RunHandlers")
 				return
 			}
+		case f[0] == "rhparked":
+			// RunHandlers (in the background) is held inside its critical section; "closebg" then calls Close meanwhile, "unpark" lets
+			// RunHandlers go on and waits for both
+			atomic.StoreInt32(&plog.armed, 1)
+			seq++
+			id := fmt.Sprintf("rh%d", seq)
+			r.Emit("rhcall", "i", id)
+			bg2.Add(1)
+			go func() {
+				defer bg2.Done()
+				var err error
+				pn, v := Guarded(func() { err = router.RunHandlers(ctx) })
+				if pn {
+					r.Emit("panic", "where", "RunHandlers", "val", v)
+					return
+				}
+				r.Emit("rhret", "i", id, "ok", err == nil)
+			}()
+			select {
+			case <-plog.parked:
+			case <-time.After(HangBound):
+				r.Emit("hung", "what", "RunHandlers did not reach its first log line")
+				return
+			}
+		case f[0] == "closebg":
+			r.Emit("closecall")
+			bg2.Add(1)
+			go func() {
+				defer bg2.Done()
+				var err error
+				pn, v := Guarded(func() { err = router.Close() })
+				if pn {
+					r.Emit("panic", "where", "Close", "val", v)
+					return
+				}
+				r.Emit("closeret", "ok", err == nil)
+			}()
+			time.Sleep(10 * time.Millisecond) // (Close is waiting for the lock RunHandlers holds)
+		case f[0] == "unpark":
+			plog.unpark()
+			if !WaitOrHang(waitWG(&bg2)) {
+				r.Emit("hung", "what", "RunHandlers and Close, overlapping, did not both return")
+				return
+			}
 		case f[0] == "started":
 			select {
 			case <-handles[f[1]].Started():
@@ -487,6 +561,7 @@ func c10Run(r *tr.Run, p c10Prog) {
 			r.Emit("closeret", "ok", err == nil)
 		}
 	}
+	plog.unpark()
 	bg.Wait()
 	if nruns > 0 {
 		select {
